@@ -15,6 +15,7 @@ EXPLANATION = (
     "(R2 also: the kept configurations are applied before the node's software is built.) "
     "(R4 also: every prefix level of a key path is visited - no level is skipped on a loop exit; R6) lengths used as text offsets are byte lengths, never character counts. "
     '(R2 also: configurations are added to the kept list by include_cfg alone, which also applies them to the modules that exist.) '
+    '(R7, shared with C04.R6) a by-value method of SimBuilder returns the builder it was given, so the included configurations survive; R8) a failed downcast of a stored property value is forced (panic), never handed on as an absent value. '
     "Decides these necessary conditions only; not the iff over all configurations.")
 ASSUMPTIONS = ["serde_yml::Mapping::get / keys behave as documented"]
 
